@@ -592,6 +592,194 @@ def s_size_of(ex, callee, args, dest_ty):
     return IntV(bv(sizes[m.group(1)]))
 
 
+def call_closure(ex, callee, clos, cargs):
+    cf = closure_fn(ex.prog, callee)
+    first = cf.params[0][1]
+    env = clos if not first.startswith("&") else Ref([clos], 0)
+    return ex.call_fn(cf, [env] + list(cargs))
+
+
+def s_opt_or(ex, callee, args, dest_ty):
+    a, b = args
+    return a if a.variant == "Some" else b
+
+
+def s_opt_and(ex, callee, args, dest_ty):
+    a, b = args
+    return b if a.variant == "Some" else Enum("None", [], "Option")
+
+
+def s_opt_map(ex, callee, args, dest_ty):
+    o, clos = args
+    if o.variant in ("None",):
+        return o
+    if o.variant == "Err":
+        return o
+    r = call_closure(ex, callee, clos, [o.f[0]])
+    return Enum(o.variant, [r], o.ty)
+
+
+def s_res_map_err(ex, callee, args, dest_ty):
+    o, clos = args
+    if o.variant == "Ok":
+        return o
+    r = call_closure(ex, callee, clos, [o.f[0]])
+    return Enum("Err", [r], "Result")
+
+
+def s_and_then(ex, callee, args, dest_ty):
+    o, clos = args
+    if o.variant in ("None", "Err"):
+        return o
+    return call_closure(ex, callee, clos, [o.f[0]])
+
+
+def s_or_else(ex, callee, args, dest_ty):
+    o, clos = args
+    if o.variant in ("Some", "Ok"):
+        return o
+    return call_closure(ex, callee, clos, [] if o.variant == "None" else [o.f[0]])
+
+
+def s_ok_or_else(ex, callee, args, dest_ty):
+    o, clos = args
+    if o.variant == "Some":
+        return Enum("Ok", [o.f[0]], "Result")
+    return Enum("Err", [call_closure(ex, callee, clos, [])], "Result")
+
+
+def s_unwrap_or(ex, callee, args, dest_ty):
+    o, d = args
+    return o.f[0] if o.variant in ("Some", "Ok") else d
+
+
+def s_unwrap_or_else(ex, callee, args, dest_ty):
+    o, clos = args
+    if o.variant in ("Some", "Ok"):
+        return o.f[0]
+    return call_closure(ex, callee, clos, [] if o.variant == "None" else [o.f[0]])
+
+
+def s_opt_as_ref(ex, callee, args, dest_ty):
+    o = args[0].load() if isinstance(args[0], Ref) else args[0]
+    if o.variant == "None":
+        return o
+    return Enum(o.variant, [Ref(o.f, 0)], o.ty)
+
+
+def s_opt_copied(ex, callee, args, dest_ty):
+    o = args[0]
+    if o.variant == "None":
+        return o
+    v = o.f[0]
+    return Enum("Some", [v.load() if isinstance(v, Ref) else v], o.ty)
+
+
+def s_opt_take(ex, callee, args, dest_ty):
+    r = args[0]
+    o = r.load()
+    r.store(Enum("None", [], "Option"))
+    return o
+
+
+def s_minmax(which):
+    def h(ex, callee, args, dest_ty):
+        a, b = args[0], args[1]
+        if isinstance(a, Ref):
+            a = a.load()
+        if isinstance(b, Ref):
+            b = b.load()
+        lt = (a.e < b.e) if a.signed else z3.ULT(a.e, b.e)
+        if which == "min":
+            return IntV(z3.If(lt, a.e, b.e), a.signed)
+        return IntV(z3.If(lt, b.e, a.e), a.signed)
+    return h
+
+
+def s_intop(op):
+    def h(ex, callee, args, dest_ty):
+        a = args[0]
+        b = args[1] if len(args) > 1 else None
+        x = a.e
+        y = b.e if b is not None else None
+        if op == "saturating_sub":
+            return IntV(z3.If(z3.ULT(x, y), bv(0, x.size()), x - y), a.signed)
+        if op == "saturating_add":
+            return IntV(z3.If(z3.BVAddNoOverflow(x, y, False), x + y, bv((1 << x.size()) - 1, x.size())), a.signed)
+        if op == "wrapping_add":
+            return IntV(x + y, a.signed)
+        if op == "wrapping_sub":
+            return IntV(x - y, a.signed)
+        if op == "wrapping_mul":
+            return IntV(x * y, a.signed)
+        if op == "is_power_of_two":
+            return z3.And(x != 0, (x & (x - 1)) == 0)
+        if op == "trailing_zeros":
+            w = x.size()
+            r = bv(w, 32)
+            for i in range(w - 1, -1, -1):
+                r = z3.If(z3.Extract(i, i, x) == 1, bv(i, 32), r)
+            return IntV(r)
+        if op == "count_ones":
+            w = x.size()
+            return IntV(z3.Sum([z3.ZeroExt(31, z3.Extract(i, i, x)) for i in range(w)]))
+        raise Unsupported("int op " + op)
+    return h
+
+
+def s_vec_with_capacity(ex, callee, args, dest_ty):
+    m = re.search(r"Vec::<(\w+)>::with_capacity", callee)
+    ty = m.group(1) if m else "u8"
+    elem = {"u8": 1, "SectionHeader": 64, "ProgramHeader": 56}.get(ty, 8)
+    n = args[0].e
+    # one allocation of n * size_of::<T>() bytes (capacity overflow panics)
+    ok = z3.ULE(n, bv(((1 << 63) - 1) // elem))
+    k = ex.ctx.choose([("ok", ok), ("capacity overflow", z3.Not(ok))])
+    if k == 1:
+        ex.ctx.event("panic", "capacity overflow", callee)
+        raise PathEnd("panic", "capacity overflow in Vec::with_capacity")
+    ex.ctx.event("alloc", n * elem)
+    if ty == "u8":
+        return Agg([Buffer(n, "zeros", label="Vec::with_capacity")], "VecU8")
+    return Collected("empty", Slice(Buffer(bv(0), "zeros"), bv(0), bv(0)), None, None)
+
+
+def s_vec_extend(ex, callee, args, dest_ty):
+    vref, it = args
+    v = vref.load() if isinstance(vref, Ref) else vref
+    if isinstance(it, Agg) and it.ty == "ParsingIterator" and isinstance(v, Collected) and v.tyname == "empty":
+        m = re.search(r"ParsingIterator<'_, E, (\w+)>", callee)
+        ty = m.group(1) if m else "?"
+        nv = Collected(ty, as_slice(it.f[2]), it.f[1], it.f[0])
+        if isinstance(vref, Ref):
+            vref.store(nv)
+        return UNIT
+    raise Unsupported("Vec::extend in this form")
+
+
+def s_slice_len(ex, callee, args, dest_ty):
+    return IntV(as_slice(args[0]).len)
+
+
+def s_slice_index_range(ex, callee, args, dest_ty):
+    sl = as_slice(args[0])
+    r = args[1]
+    if r.ty == "Range":
+        s_, e_ = r.f[0].e, r.f[1].e
+    elif r.ty == "RangeFrom":
+        s_, e_ = r.f[0].e, sl.len
+    elif r.ty == "RangeTo":
+        s_, e_ = bv(0), r.f[0].e
+    else:
+        raise Unsupported("slice index with " + r.ty)
+    ok = z3.And(z3.ULE(s_, e_), z3.ULE(e_, sl.len))
+    k = ex.ctx.choose([("ok", ok), ("oob", z3.Not(ok))])
+    if k == 1:
+        ex.ctx.event("panic", "slice index out of range", callee)
+        raise PathEnd("panic", "slice index out of range")
+    return Slice(sl.buf, sl.start + s_, e_ - s_)
+
+
 def s_default_none(ex, callee, args, dest_ty):
     return Enum("None", [], "Option")
 
@@ -721,6 +909,29 @@ def install(prog):
     S.append((R(r"^<Vec<\w+> as Index<usize>>::index$"), s_vec_index))
     S.append((R(r"^<Option<.*> as Default>::default$"), s_default_none))
     S.append((R(r"^Result::<.*>::ok$"), s_result_ok))
+    S.append((R(r"^Option::<.*>::or$"), s_opt_or))
+    S.append((R(r"^Option::<.*>::and$"), s_opt_and))
+    S.append((R(r"^(Option|Result)::<.*>::map::<"), s_opt_map))
+    S.append((R(r"^Result::<.*>::map_err::<"), s_res_map_err))
+    S.append((R(r"^(Option|Result)::<.*>::and_then::<"), s_and_then))
+    S.append((R(r"^(Option|Result)::<.*>::or_else::<"), s_or_else))
+    S.append((R(r"^Option::<.*>::ok_or_else::<"), s_ok_or_else))
+    S.append((R(r"^(Option|Result)::<.*>::unwrap_or$"), s_unwrap_or))
+    S.append((R(r"^(Option|Result)::<.*>::unwrap_or_else::<"), s_unwrap_or_else))
+    S.append((R(r"^Option::<.*>::as_ref$"), s_opt_as_ref))
+    S.append((R(r"^Option::<.*>::(copied|cloned)$"), s_opt_copied))
+    S.append((R(r"^Option::<.*>::take$"), s_opt_take))
+    S.append((R(r"^Result::<.*>::is_ok$"), s_is("Ok")))
+    S.append((R(r"^Result::<.*>::is_err$"), s_is("Ok", neg=True)))
+    S.append((R(r"^(std|core)::cmp::min::<\w+>$|^<\w+ as Ord>::min$"), s_minmax("min")))
+    S.append((R(r"^(std|core)::cmp::max::<\w+>$|^<\w+ as Ord>::max$"), s_minmax("max")))
+    for op in ("saturating_sub", "saturating_add", "wrapping_add", "wrapping_sub", "wrapping_mul", "is_power_of_two", "trailing_zeros", "count_ones"):
+        S.append((R(r"^core::num::<impl \w+>::%s$" % op), s_intop(op)))
+    S.append((R(r"^Vec::<\w+>::with_capacity$"), s_vec_with_capacity))
+    S.append((R(r"^<Vec<\w+> as Extend<\w+>>::extend::<"), s_vec_extend))
+    S.append((R(r"^core::slice::<impl \[u8\]>::len$"), s_slice_len))
+    S.append((R(r"^<\[u8\] as Index<std::ops::Range(From|To)?<usize>>>::index$|^core::slice::index::<impl Index<std::ops::Range(From|To)?<usize>> for \[u8\]>::index$"), s_slice_index_range))
+    S.append((R(r"^<\w+ as Clone>::clone$"), lambda ex, c, a, d: (a[0].load() if isinstance(a[0], Ref) else a[0])))
     S.append((R(r"^(std|core)::mem::size_of::<\w+>$"), s_size_of))
     S.append((R(r"^<CompressionHeader as ParseAt>::parse_at"), s_parse_at("CompressionHeader", CHDR_FIELDS)))
     S.append((R(r"^parse_ident::<E>$|^file::parse_ident"), s_parse_ident))
